@@ -253,21 +253,39 @@ AllOps == MutOps1 \cup ObsOps1 \cup CtorOps1 \cup BinSame \cup {"ctorCopy", "cto
 AllOpsBig == AllOps \cup {"reserveBig"}
 
 \* Vals: value domain;  MaxLen: bound on the size;  MaxCnt: bound on counts;  Its: iterator kinds;
-\* RLens: lengths of range arguments;  Alias: offer value arguments that refer to own elements (C10).
+\* RLens: lengths of range arguments;  Alias: offer value arguments that refer to own elements (C10);
+\* Near: width of the explored neighbourhood below a limit <= 300 (0 = off).
 \* Labels of operation o on slot c that are legal calls in state st (one small set per operation, so that a random
 \* driver can pick an operation first and never has to build the set of all labels).
-OpLabels(st, c, o, Vals, MaxLen, MaxCnt, Its, RLens, Alias) ==
+OpLabels(st, c, o, Vals, MaxLen, MaxCnt, Its, RLens, Alias, Near) ==
   LET Ranges == UNION {[1..m -> Vals] : m \in RLens}
-      Fits(need) == need <= MaxLen \/ (need > Limit(c) /\ need <= Limit(c) + MaxCnt)
+      \* sizes explored: up to MaxLen, and the neighbourhood of the limit (N of a FixedCapacityVector, the maximum of
+      \* a narrow size_type), entered by a count constructor (C08)
+      \* (Near = 0: only calls that overflow the limit by at most MaxCnt are offered beyond MaxLen)
+      NearLimit(need) == \/ (need > Limit(c) /\ need <= Limit(c) + MaxCnt)
+                         \/ (Near > 0 /\ Limit(c) <= 300 /\ need >= Limit(c) - Near /\ need <= Limit(c))
+      Fits(need) == need <= MaxLen \/ NearLimit(need)
       sz == Len(st[c].vals)
-      Srcs == {<<v, 0>> : v \in Vals} \cup (IF Alias /\ o \in AliasOps THEN {<<0, j>> : j \in 1..sz} ELSE {})
+      big == sz > MaxLen
+      \* beyond MaxLen only first / middle / last positions are offered
+      Pos == IF big THEN {0, sz \div 2, sz} ELSE 0..sz
+      PosE == IF big THEN {0, sz \div 2, sz - 1} ELSE 0..sz - 1
+      \* counts: small ones, and (near a limit) the ones that land just below / on / above the limit from here
+      Cnts(base) == {m \in 0..MaxCnt : Fits(base + m)} \cup
+                    (IF Near > 0 /\ Limit(c) <= 300
+                     THEN {m \in (Limit(c) - 1 - base)..(Limit(c) + 2 - base) : m >= 0 /\ m <= MaxSz[c]} ELSE {})
+      \* a count / size argument is a size_type: it cannot exceed MaxSz
+      Sizes == {n \in (IF big THEN (0..1) \cup {m \in sz..(sz + MaxCnt) : Fits(m)} ELSE {m \in 0..sz + MaxCnt : Fits(m)}) : n <= MaxSz[c]}
+      CtorCnts == {n \in {m \in 0..MaxCnt + 1 : Fits(m)} \cup (IF Near > 0 /\ Limit(c) <= 300 THEN (Limit(c) - Near)..(Limit(c) + 1) ELSE {}) : n <= MaxSz[c]}
+      Own == IF big THEN {1, sz} ELSE 1..sz
+      Srcs == {<<v, 0>> : v \in Vals} \cup (IF Alias /\ o \in AliasOps THEN {<<0, j>> : j \in Own} ELSE {})
       Same == {e \in Slots : st[e].ex /\ SameType(c, e)}
   IN
   IF ~st[c].ex
   THEN \* constructors for a slot that does not exist
     CASE o = "ctorDefault"  -> {Lbl(o, c, 0, 0, 0, 0, 0, "", <<>>)}
-      [] o = "ctorCount"    -> {Lbl(o, c, 0, 0, n, 0, 0, "", <<>>) : n \in {m \in 0..MaxCnt + 1 : Fits(m)}}
-      [] o = "ctorCountVal" -> {Lbl(o, c, 0, 0, n, v, 0, "", <<>>) : n \in {m \in 0..MaxCnt + 1 : Fits(m)}, v \in Vals}
+      [] o = "ctorCount"    -> {Lbl(o, c, 0, 0, n, 0, 0, "", <<>>) : n \in CtorCnts}
+      [] o = "ctorCountVal" -> {Lbl(o, c, 0, 0, n, v, 0, "", <<>>) : n \in CtorCnts, v \in Vals}
       [] o = "ctorRange"    -> {Lbl(o, c, 0, 0, 0, 0, 0, it, vs) : it \in Its, vs \in {r \in Ranges : Fits(Len(r))}}
       [] o = "ctorIlist"    -> {Lbl(o, c, 0, 0, 0, 0, 0, "", vs) : vs \in {r \in Ranges : Fits(Len(r))}}
       [] o \in {"ctorCopy", "ctorMove"} -> {Lbl(o, c, d, 0, 0, 0, 0, "", <<>>) : d \in Same \ {c}}
@@ -278,44 +296,45 @@ OpLabels(st, c, o, Vals, MaxLen, MaxCnt, Its, RLens, Alias) ==
       [] OTHER -> {}
   ELSE
     CASE o = "assignIlist"  -> {Lbl(o, c, 0, 0, 0, 0, 0, "", vs) : vs \in Ranges}
-      [] o = "assignN"      -> {Lbl(o, c, 0, 0, n, a[1], a[2], "", <<>>) : n \in {m \in 0..MaxCnt + 1 : Fits(m)}, a \in Srcs}
+      [] o = "assignN"      -> {Lbl(o, c, 0, 0, n, a[1], a[2], "", <<>>) : n \in CtorCnts, a \in Srcs}
       [] o = "assignRange"  -> {Lbl(o, c, 0, 0, 0, 0, 0, it, vs) : it \in Its, vs \in Ranges}
       [] o \in {"insert1", "emplace"} ->
-           {Lbl(o, c, 0, p, 0, a[1], a[2], "", <<>>) : p \in {q \in 0..sz : Fits(sz + 1)}, a \in Srcs}
-      [] o = "emplaceF"     -> {Lbl(o, c, 0, p, 0, 0, j, "", <<>>) : p \in {q \in 0..sz : Fits(sz + 1)}, j \in 1..sz}
-      [] o = "emplaceBackF" -> {Lbl(o, c, 0, 0, 0, 0, j, "", <<>>) : j \in {i \in 1..sz : Fits(sz + 1)}}
-      [] o = "insert1rv"    -> {Lbl(o, c, 0, p, 0, v, 0, "", <<>>) : p \in {q \in 0..sz : Fits(sz + 1)}, v \in Vals}
-      [] o = "insertN"      -> {Lbl(o, c, 0, p, n, a[1], a[2], "", <<>>) : p \in 0..sz, n \in {m \in 0..MaxCnt : Fits(sz + m)},
-                                                                         a \in Srcs}
-      [] o = "insertRange"  -> {Lbl(o, c, 0, p, 0, 0, 0, it, vs) : p \in 0..sz, it \in Its,
+           {Lbl(o, c, 0, p, 0, a[1], a[2], "", <<>>) : p \in {q \in Pos : Fits(sz + 1)}, a \in Srcs}
+      [] o = "emplaceF"     -> {Lbl(o, c, 0, p, 0, 0, j, "", <<>>) : p \in {q \in Pos : Alias /\ Fits(sz + 1)}, j \in Own}
+      [] o = "emplaceBackF" -> {Lbl(o, c, 0, 0, 0, 0, j, "", <<>>) : j \in {i \in Own : Alias /\ Fits(sz + 1)}}
+      [] o = "insert1rv"    -> {Lbl(o, c, 0, p, 0, v, 0, "", <<>>) : p \in {q \in Pos : Fits(sz + 1)}, v \in Vals}
+      [] o = "insertN"      -> {Lbl(o, c, 0, p, n, a[1], a[2], "", <<>>) : p \in Pos, n \in Cnts(sz), a \in Srcs}
+      [] o = "insertRange"  -> {Lbl(o, c, 0, p, 0, 0, 0, it, vs) : p \in Pos, it \in Its,
                                                                   vs \in {r \in Ranges : Fits(sz + Len(r))}}
-      [] o = "insertIlist"  -> {Lbl(o, c, 0, p, 0, 0, 0, "", vs) : p \in 0..sz, vs \in {r \in Ranges : Fits(sz + Len(r))}}
+      [] o = "insertIlist"  -> {Lbl(o, c, 0, p, 0, 0, 0, "", vs) : p \in Pos, vs \in {r \in Ranges : Fits(sz + Len(r))}}
       [] o \in {"emplaceBack", "pushBack"} ->
            {Lbl(o, c, 0, 0, 0, a[1], a[2], "", <<>>) : a \in {b \in Srcs : Fits(sz + 1)}}
       [] o = "pushBackRv"   -> {Lbl(o, c, 0, 0, 0, v, 0, "", <<>>) : v \in {w \in Vals : Fits(sz + 1)}}
       [] o \in {"popBack", "popBackVal", "front", "back"} -> IF sz > 0 THEN {Lbl(o, c, 0, 0, 0, 0, 0, "", <<>>)} ELSE {}
-      [] o = "erase1"       -> {Lbl(o, c, 0, p, 0, 0, 0, "", <<>>) : p \in 0..sz - 1}
-      [] o = "eraseRange"   -> {Lbl(o, c, 0, pq[1], pq[2], 0, 0, "", <<>>) : pq \in {w \in (0..sz) \X (0..sz) : w[1] <= w[2]}}
-      [] o = "resize"       -> {Lbl(o, c, 0, 0, n, 0, 0, "", <<>>) : n \in {m \in 0..sz + MaxCnt : Fits(m)}}
-      [] o = "resizeVal"    -> {Lbl(o, c, 0, 0, n, a[1], a[2], "", <<>>) : n \in {m \in 0..sz + MaxCnt : Fits(m)}, a \in Srcs}
+      [] o = "erase1"       -> {Lbl(o, c, 0, p, 0, 0, 0, "", <<>>) : p \in PosE}
+      [] o = "eraseRange"   -> {Lbl(o, c, 0, pq[1], pq[2], 0, 0, "", <<>>) : pq \in {w \in Pos \X Pos : w[1] <= w[2]}}
+      [] o = "resize"       -> {Lbl(o, c, 0, 0, n, 0, 0, "", <<>>) : n \in Sizes}
+      [] o = "resizeVal"    -> {Lbl(o, c, 0, 0, n, a[1], a[2], "", <<>>) : n \in Sizes, a \in Srcs}
       [] o \in {"clear", "shrinkToFit", "iterate", "relocate", "destroy"} -> {Lbl(o, c, 0, 0, 0, 0, 0, "", <<>>)}
-      [] o = "reserve"      -> {Lbl(o, c, 0, 0, n, 0, 0, "", <<>>) : n \in {m \in 0..MaxLen + 1 : m <= MaxLen \/ Flav[c] = "fixed"}}
+      [] o = "reserve"      -> {Lbl(o, c, 0, 0, n, 0, 0, "", <<>>) :
+                                  n \in {m \in 0..MaxLen + 1 : m <= MaxLen \/ Flav[c] = "fixed"} \cup
+                                        (IF Near > 0 /\ Limit(c) <= 300 THEN (Limit(c) - 1)..Min(Limit(c) + 1, MaxSz[c]) ELSE {})}
       \* a capacity beyond an 8-bit size_type (swap2 between vectors of different size_type)
       [] o = "reserveBig"   -> IF Flav[c] # "fixed" /\ MaxSz[c] >= BigCap THEN {Lbl(o, c, 0, 0, BigCap, 0, 0, "", <<>>)} ELSE {}
-      [] o = "appendN"      -> {Lbl(o, c, 0, 0, n, 0, 0, "", <<>>) : n \in {m \in 0..MaxCnt : Fits(sz + m)}}
-      [] o = "appendNVal"   -> {Lbl(o, c, 0, 0, n, a[1], a[2], "", <<>>) : n \in {m \in 0..MaxCnt : Fits(sz + m)}, a \in Srcs}
+      [] o = "appendN"      -> {Lbl(o, c, 0, 0, n, 0, 0, "", <<>>) : n \in Cnts(sz)}
+      [] o = "appendNVal"   -> {Lbl(o, c, 0, 0, n, a[1], a[2], "", <<>>) : n \in Cnts(sz), a \in Srcs}
       [] o = "appendRange"  -> {Lbl(o, c, 0, 0, 0, 0, 0, it, vs) : it \in Its, vs \in {r \in Ranges : Fits(sz + Len(r))}}
       [] o = "appendIlist"  -> {Lbl(o, c, 0, 0, 0, 0, 0, "", vs) : vs \in {r \in Ranges : Fits(sz + Len(r))}}
       [] o = "eraseVal"     -> {Lbl(o, c, 0, 0, 0, v, 0, "", <<>>) : v \in Vals}
-      [] o = "at"           -> {Lbl(o, c, 0, 0, n, 0, 0, "", <<>>) : n \in 0..sz + 1}
-      [] o = "index"        -> {Lbl(o, c, 0, 0, n, 0, 0, "", <<>>) : n \in 0..sz - 1}
+      [] o = "at"           -> {Lbl(o, c, 0, 0, n, 0, 0, "", <<>>) : n \in {m \in (IF big THEN {0, sz - 1, sz, sz + 1} ELSE 0..sz + 1) : m <= MaxSz[c]}}
+      [] o = "index"        -> {Lbl(o, c, 0, 0, n, 0, 0, "", <<>>) : n \in PosE}
       \* v = std::move(v) leaves a std::vector in a valid but unspecified state: not part of the contract
       [] o \in BinSame      -> {Lbl(o, c, d, 0, 0, 0, 0, "", <<>>) : d \in IF o = "assignMove" THEN Same \ {c} ELSE Same}
       [] o = "swap2"        -> {Lbl(o, c, d, 0, 0, 0, 0, "", <<>>) : d \in {e \in Slots : st[e].ex /\ e # c}}
       [] OTHER -> {}
 
-LabelsOf(st, Ops, Vals, MaxLen, MaxCnt, Its, RLens, Alias) ==
-  UNION {OpLabels(st, c, o, Vals, MaxLen, MaxCnt, Its, RLens, Alias) : c \in Slots, o \in Ops}
+LabelsOf(st, Ops, Vals, MaxLen, MaxCnt, Its, RLens, Alias, Near) ==
+  UNION {OpLabels(st, c, o, Vals, MaxLen, MaxCnt, Its, RLens, Alias, Near) : c \in Slots, o \in Ops}
 
 -----------------------------------------------------------------------------
 (* Invariants of the design, checked by TLC on every reachable state of a model *)
